@@ -208,12 +208,32 @@ def payload_for(bk, a):
     return 'b%d' % (1 + (a[0] * 7 + a[1] * 3 + a[2]) % 8)
 
 
+_ROOT = {}
+
+
+def real_root(ctx):
+    """directory of the real caches: memory backed if possible (sqlite syncs every commit), removed by run()"""
+    if ctx.workdir not in _ROOT:
+        import tempfile
+        if os.path.isdir('/dev/shm') and os.access('/dev/shm', os.W_OK):
+            _ROOT[ctx.workdir] = tempfile.mkdtemp(prefix='verif-c12-', dir='/dev/shm')
+        else:
+            _ROOT[ctx.workdir] = ctx.sub('real')
+    return _ROOT[ctx.workdir]
+
+
+def drop_root(ctx):
+    d = _ROOT.pop(ctx.workdir, None)
+    if d:
+        shutil.rmtree(d, ignore_errors=True)
+
+
 class Site(object):
     """One real backend on a private directory, with a loaded MapProxy configuration around it."""
 
     def __init__(self, ctx, bk, tag=''):
         self.bk = bk
-        self.dir = os.path.join(ctx.sub('real'), bk.name + tag)
+        self.dir = os.path.join(real_root(ctx), bk.name + tag)
         shutil.rmtree(self.dir, ignore_errors=True)
         os.makedirs(self.dir)
         from mapproxy.config.loader import ProxyConfiguration
@@ -291,7 +311,15 @@ def measure(ctx, bk, universe):
         levels = universe['levels']
         rec = dict(name=bk.name, hasLevelLoc=callable(getattr(cache, 'level_location', None)),
                    hasBulk=callable(getattr(cache, 'remove_level_tiles_before', None)),
-                   supportsTs=bool(cache.supports_timestamp), raises=[], under=[])
+                   supportsTs=bool(cache.supports_timestamp), raises=[], under=[], probe=cleanup_probes(ctx),
+                   probeRaises=False)
+        if rec['hasLevelLoc']:
+            try:
+                cache.level_location(0)
+            except NotImplementedError:
+                rec['probeRaises'] = True
+            except Exception:
+                pass
         for z in levels:
             ut, uj = [], []
             if rec['hasLevelLoc']:
@@ -319,6 +347,45 @@ def measure(ctx, bk, universe):
         return rec
     finally:
         site.close()
+
+
+_PROBE = []
+
+
+def cleanup_probes(ctx):
+    """Does cleanup() ask level_location before it takes the directory walk (and treat NotImplementedError
+    as "no level directories")?  Observed on a stub cache; selects the variant of ChooseStrategy."""
+    if _PROBE:
+        return _PROBE[0]
+    import mapproxy.seed.cleanup as C
+    from mapproxy.seed.seeder import CleanupTask
+    from mapproxy.util.coverage import BBOXCoverage
+
+    class StubCache(object):
+        supports_timestamp = True
+
+        def level_location(self, level, dimensions=None):
+            raise NotImplementedError('stub')
+
+    site = Site(ctx, all_backends()[0], '-probe')
+    entered = []
+    try:
+        site.tm.cache = StubCache()
+        grid = site.tm.grid
+        task = CleanupTask(dict(name='probe', cache_name='c', grid_name='lat'), site.tm, [0], T0, False,
+                           BBOXCoverage(grid.bbox, grid.srs), complete_extent=True)
+        with patched(C, 'simple_cleanup', lambda *a, **kw: entered.append('dir')), \
+                patched(C, 'cache_cleanup', lambda *a, **kw: entered.append('bulk')), \
+                patched(C, 'tilewalker_cleanup', lambda *a, **kw: entered.append('walk')), \
+                contextlib.redirect_stdout(io.StringIO()):
+            C.cleanup([task], dry_run=True, verbose=False)
+    finally:
+        site.tm.cache = None
+        site.close()
+    if entered not in (['dir'], ['walk']):
+        raise tlc.MachineryError('cleanup() on the stub cache entered %r' % (entered,))
+    _PROBE.append(entered == ['walk'])
+    return _PROBE[0]
 
 
 def feature_key(rec):
@@ -476,7 +543,9 @@ def run_case(site, case, universe):
 
     class RecordingPool(S.TileWorkerPool):
         def process(self, tiles, progress):
-            events.append({'ev': 'process', 'tiles': [list(x) for x in tiles if tuple(x) in uni]})
+            mine = [list(x) for x in tiles if tuple(x) in uni]
+            if mine:                    # batches without a tile of the universe are invisible to the model
+                events.append({'ev': 'process', 'tiles': mine})
             return S.TileWorkerPool.process(self, tiles, progress)
     assign(C, 'TileWorkerPool', RecordingPool)
 
@@ -613,13 +682,14 @@ def tla_features(rec, universe):
     under_t = {z: frozenset(tuple(a) for a in ut) for z, ut, uj in rec['under']}
     under_j = {z: frozenset(uj) for z, ut, uj in rec['under']}
     return tla.to_tla(dict(name=rec['name'], hasLevelLoc=rec['hasLevelLoc'], raises=frozenset(rec['raises']),
+                           probe=rec['probe'], probeRaises=rec['probeRaises'],
                            underT=under_t, underJ=under_j, hasBulk=rec['hasBulk'], supportsTs=rec['supportsTs'],
                            storesTs=rec['storesTs']))
 
 
-def model_consts(universe, covs, recs, tasks, max_tiles, min_tiles=0, in_order=True, queue_cap=1):
+def model_consts(universe, covs, recs, tasks, max_tiles, min_tiles=0, in_order=True, queue_cap=1, junk=JUNK):
     lv = universe['levels']
-    return dict(Addr=set(universe['addr']), JunkIds=set(JUNK), Levels=set(lv), GridN={z: GRID_N[z] for z in lv},
+    return dict(Addr=set(universe['addr']), JunkIds=set(junk), Levels=set(lv), GridN={z: GRID_N[z] for z in lv},
                 Span={z: SPAN[z] for z in lv}, MetaSize=META,
                 Covs={k: frozenset(tuple(r) for r in v) for k, v in covs.items()},
                 Backends='={' + ', '.join(tla_features(r, universe) for r in recs) + '}',
@@ -832,7 +902,7 @@ def expected_actions(rec, full):
     if rec['supportsTs'] or not full or True:
         acts.add('ChooseStrategy')
     if full:
-        if rec['hasLevelLoc']:
+        if rec['hasLevelLoc'] and not (rec['probe'] and rec['probeRaises']):
             acts.add('LevelLocationRaises' if rec['raises'] else 'CleanupDirectory')
             if len(rec['raises']) < len(rec['under']):
                 acts |= {'CleanupDirectory', 'LevelsFinish'}
@@ -847,17 +917,17 @@ def expected_actions(rec, full):
 
 def model_check(ctx, name, rec, universe, covs, tasks, max_tiles, full, skip=()):
     d = ctx.sub('mc-' + name)
-    consts = model_consts(universe, covs, [rec], tasks, max_tiles)
+    consts = model_consts(universe, covs, [rec], tasks, max_tiles, junk=JUNK if ctx.tier == 'thorough' else JUNK[:1])
     mp, cp = tlc.write_mc(d, 'Cleanup', 'MC_Cleanup', consts, invariants=[i for i in INVARIANTS if i not in skip], deadlock=True)
     r = tlc.run(mp, cp, d, workers=4, timeout=3000)
     return name, rec, r, full
 
 
-def reproduce(ctx, r, members, sites, universe, how):
+def reproduce(ctx, r, members, sites, universe, how, feats):
     """execute a TLC counterexample on the real backends of the class; report if the real code shows it"""
     shown = 0
     for bk in members:
-        case, steps = case_from_behaviour(r.trace, bk.name, ctx_features[bk.name])
+        case, steps = case_from_behaviour(r.trace, bk.name, feats[bk.name])
         if case is None:
             raise tlc.MachineryError('counterexample without Configure: %r' % ([a for a, s in r.trace],))
         events, info = run_case(sites[bk.name], case, universe)
@@ -869,9 +939,6 @@ def reproduce(ctx, r, members, sites, universe, how):
     return shown
 
 
-ctx_features = {}
-
-
 def run(ctx):
     thorough = ctx.tier == 'thorough'
     tlc.sany(SPEC)
@@ -879,8 +946,6 @@ def run(ctx):
     byname = {b.name: b for b in bks}
     feats = {b.name: measure(ctx, b, SMALL) for b in bks}
     feats_big = {b.name: measure(ctx, b, BIG) for b in bks}
-    ctx_features.clear()
-    ctx_features.update(feats)
     classes = {}
     for b in bks:
         classes.setdefault(feature_key(feats[b.name]), []).append(b)
@@ -893,16 +958,19 @@ def run(ctx):
     finally:
         for s in sites.values():
             s.close()
+        drop_root(ctx)
 
 
 def _run(ctx, thorough, bks, byname, feats, feats_big, classes, sites):
     covs = SMALL['covs']
     # ---- (M) exhaustive model checking, one run per feature class (complete extent) and per timestamp
-    #      class (coverages, always the tile walk)
+    #      class (coverages, always the tile walk); runs in the background while the real caches are driven
     jobs = []
     mt = 4 if thorough else 2
+    mtc = 3 if thorough else 2
     full_tasks = task_space(SMALL, covs, with_partial=False)
-    part_tasks = task_space(SMALL, covs, with_full=False)
+    part_tasks = [t for t in task_space(SMALL, covs, with_full=False)
+                  if t['mode'] != 'default' and (thorough or len(t['levels']) != 2 or 9 not in t['levels'])]
     for i, (key, members) in enumerate(classes.items()):
         rec = dict(feats[members[0].name], name='K%d' % i)
         jobs.append(('full-K%d' % i, rec, SMALL, covs, full_tasks, mt, True))
@@ -912,23 +980,30 @@ def _run(ctx, thorough, bks, byname, feats, feats_big, classes, sites):
         walk_classes.setdefault((f['supportsTs'], f['storesTs']), (i, members))
     for (sup, sto), (i, members) in walk_classes.items():
         rec = dict(feats[members[0].name], name='K%d' % i)
-        jobs.append(('cov-ts%d%d' % (sup, sto), rec, SMALL, covs, part_tasks, (3 if thorough else 2), False))
-    with ThreadPoolExecutor(max_workers=4) as ex:
-        results = list(ex.map(lambda j: model_check(ctx, *j), jobs))
+        jobs.append(('cov-ts%d%d' % (sup, sto), rec, SMALL, covs, part_tasks, mtc, False))
+    jobs.sort(key=lambda j: (j[1]['storesTs'], not j[6]), reverse=True)      # the big ones first
+    pool = ThreadPoolExecutor(max_workers=4)
+    futures = [pool.submit(model_check, ctx, *j) for j in jobs]
     class_of_rec = {'K%d' % i: members for i, (key, members) in enumerate(classes.items())}
+    try:
+        _drive_real(ctx, thorough, bks, feats, feats_big, classes, class_of_rec, sites, covs)
+        results = [f.result() for f in futures]
+    finally:
+        pool.shutdown(wait=True)
+
     for name, rec, r, full in results:
         members = class_of_rec[rec['name']] if full else [b for b in bks if (feats[b.name]['supportsTs'], feats[b.name]['storesTs']) ==
                                                          (rec['supportsTs'], rec['storesTs'])]
         ctx.log('TLC %s (%s): %r' % (name, ','.join(b.name for b in members), r))
         skip = []
         while r.violated in INVARIANTS:
-            shown = reproduce(ctx, r, members, sites, SMALL, 'counterexample of Cleanup.tla (%s) executed on the real cache' % r.violated)
+            shown = reproduce(ctx, r, members, sites, SMALL, 'counterexample of Cleanup.tla (%s) executed on the real cache' % r.violated, feats)
             if not shown:
                 raise tlc.MachineryError('TLC counterexample for %s (%s) is not reproduced by the real caches %s: %s' % (
                     name, r.violated, [b.name for b in members], [a for a, s in r.trace]))
             skip.append(r.violated)
             name2, rec, r, full = model_check(ctx, name + '-' + '-'.join(skip), rec, SMALL, covs,
-                                              full_tasks if full else part_tasks, mt if full else (3 if thorough else 2), full, skip)
+                                              full_tasks if full else part_tasks, mt if full else mtc, full, skip)
             ctx.log('TLC %s without %s: %r' % (name, skip, r))
         if not r.ok:
             raise tlc.MachineryError('TLC %s: %r\n%s' % (name, r, r.out[-2000:]))
@@ -937,7 +1012,10 @@ def _run(ctx, thorough, bks, byname, feats, feats_big, classes, sites):
             if missing:
                 raise tlc.MachineryError('TLC %s: actions never taken: %s' % (name, missing))
         ctx.add_tlc('Cleanup/' + name, r)
+    return _finish(ctx)
 
+
+def _drive_real(ctx, thorough, bks, feats, feats_big, classes, class_of_rec, sites, covs):
     # ---- (R) spec -> code: TLC behaviours executed on the real caches
     recs = [dict(feats[m[0].name], name='K%d' % i) for i, (k, m) in enumerate(classes.items())]
     all_tasks = task_space(SMALL, covs)
@@ -1013,7 +1091,6 @@ def _run(ctx, thorough, bks, byname, feats, feats_big, classes, sites):
             x0, y0 = rng.randint(0, WORLD - 2), rng.randint(0, WORLD - 2)
             rects.append((x0, y0, rng.randint(x0 + 1, WORLD), rng.randint(y0 + 1, WORLD)))
         rcovs['r%d' % i] = rects
-    ctx_features.update(feats_big)
     runs = []
     per = 300 if thorough else 30
     for b in bks:
@@ -1034,6 +1111,9 @@ def _run(ctx, thorough, bks, byname, feats, feats_big, classes, sites):
     nb = verdicts(ctx, 'rand', runs, BIG, rcovs, 'random contents')
     ctx.log('random cases: %d real cleanup runs validated by TLC (%d violate or are rejected)' % (len(runs), nb))
 
+
+
+def _finish(ctx):
     ctx.assumptions += [
         'time is compared at one-second granularity: tiles written in the second of the threshold may be kept or removed; '
         'a meta tile that only touches the coverage (no common interior) may be handled or skipped',
@@ -1065,6 +1145,7 @@ def replay(ctx, data):
         events, info = run_case(site, case, universe)
     finally:
         site.close()
+        drop_root(ctx)
     bad = judge(case, info, universe)
     print('replay: %s levels=%s mode=%s cov=%s on %s' % (case['backend'], case['task']['levels'], case['task']['mode'],
                                                         case['task']['cov'], case['stores']))
